@@ -1937,12 +1937,16 @@ class Dataset(
 
         self.prepare_data(data, tl=tl)
 
+        # The required data fields are defined by the configuration and by this
+        # dataset, as for loading the data.
+        datafields = {**self._cfg['datafields'], **self._datafields}
+
         # Drop non-required data fields.
         if data.exp is not None:
             with TaskTimer(tl, 'Cleaning exp data.'):
                 keep_fields_exp = (
                     DataFields.get_joint_names(
-                        datafields=self._cfg['datafields'],
+                        datafields=datafields,
                         stages=(
                             DFS.ANALYSIS_EXP
                         )
@@ -1955,7 +1959,7 @@ class Dataset(
             with TaskTimer(tl, 'Cleaning MC data.'):
                 keep_fields_mc = (
                     DataFields.get_joint_names(
-                        datafields=self._cfg['datafields'],
+                        datafields=datafields,
                         stages=(
                             DFS.ANALYSIS_EXP |
                             DFS.ANALYSIS_MC
@@ -2902,7 +2906,7 @@ def assert_data_format(
     KeyError
         If a required data field is missing.
     """
-    cfg = dataset.cfg
+    datafields = {**dataset.cfg['datafields'], **dataset.datafields}
 
     def _get_missing_keys(keys, required_keys):
         missing_keys = []
@@ -2915,7 +2919,7 @@ def assert_data_format(
         missing_exp_keys = _get_missing_keys(
             data.exp.field_name_list,
             DataFields.get_joint_names(
-                datafields=cfg['datafields'],
+                datafields=datafields,
                 stages=(
                     DFS.ANALYSIS_EXP
                 )
@@ -2931,7 +2935,7 @@ def assert_data_format(
         missing_mc_keys = _get_missing_keys(
             data.mc.field_name_list,
             DataFields.get_joint_names(
-                datafields=cfg['datafields'],
+                datafields=datafields,
                 stages=(
                     DFS.ANALYSIS_EXP |
                     DFS.ANALYSIS_MC
